@@ -47,6 +47,12 @@
     src/client.rs  ~1160 [server.sync_parameters(&self.server_parameters)] at checkout
     src/client.rs  ~2072 [server.recv(Some(&mut self.server_parameters))] for the client's own
                      statements; every frame is forwarded to the client unchanged
+    src/client.rs  [self.transaction_mode = pool.settings.pool_mode == PoolMode::Transaction] is read at
+                     every checkout; [session c] = the client's pool is in session mode.  Session
+                     mode: the server is kept from the client's first message until the client
+                     leaves ([if self.transaction_mode && .. { break }] is the ONLY release inside
+                     the transaction loop); [sync_parameters] runs at that one checkout (it is
+                     not conditional on the mode); check-in cleanup at 'X' / read error.
     src/client.rs  ~1283-1297 release when [!server.in_transaction()] (transaction mode), then
                      [checkin_cleanup] (~1621); 'X'/read error: [checkin_cleanup] (~1194, ~1304)
 
@@ -271,6 +277,7 @@ Section Params.
   Variable valid : bytes -> bytes -> bool.     (* the backend's check of a value *)
   Variable bdef : pmap.                         (* the backend's session defaults *)
   Variable hb : pgs -> bool.                    (* pool.rs has_broken on a returned connection *)
+  Variable session : nat -> bool.               (* client c talks to a pool in session mode *)
 
   Definition fail (b : backend) : backend * list revent :=
     (mkB (b_sess b) (b_loc b) (b_snap b) (match b_txn b with TT => TE | t => t end), [RE]).
@@ -442,7 +449,7 @@ Section Params.
           let fr := frames evs in
           let lg3 := log_if (negb (is_nil_l fr)) (EvTold c fr) lg2 in
           let sv2 := mkS b' p' in
-          if in_txn p' then
+          if in_txn p' || session c then
             mkW (upd (w_srv w) s sv2)
                 (upd (w_cli w) c (Some (mkC cm2 (pset_all (c_told cl) fr) (pset_all (c_est cl) fr) (Some s))))
                 (upd (w_owner w) s (Some c)) oos lg3
@@ -518,7 +525,11 @@ Definition MOCK_DEF : pmap := Eval vm_compute in
    (B "server_version", B "14.0 (mock)"); (B "server_encoding", B "UTF8");
    (B "integer_datetimes", B "on"); (B "is_superuser", B "off")].
 
-Definition run_mock (ops : list op) : list ev := rev (w_log (run marker_valid MOCK_DEF is_unclean ops)).
+Definition no_session (c : nat) : bool := false.
+Definition all_session (c : nat) : bool := true.
+(** transaction-mode pool / session-mode pool of the harness *)
+Definition run_mock (ops : list op) : list ev := rev (w_log (run marker_valid MOCK_DEF is_unclean no_session ops)).
+Definition run_mock_s (ops : list op) : list ev := rev (w_log (run marker_valid MOCK_DEF is_unclean all_session ops)).
 
 (** ** Checkers over a log (used by the refutation witnesses and by the correspondence) *)
 Definition vals_eqb (a b : list (option bytes)) : bool :=
@@ -600,6 +611,7 @@ Fixpoint compact (tbl : list bytes) (l : list ev) : list bytes * list cev :=
   end.
 
 Definition run_mock_c (ops : list op) : list bytes * list cev := compact [] (run_mock ops).
+Definition run_mock_sc (ops : list op) : list bytes * list cev := compact [] (run_mock_s ops).
 
 (** byte strings written as lower-case hex text (long list literals are slow to parse) *)
 Definition hexd (a : ascii) : N := let n := N_of_ascii a in if n <? 58 then n - 48 else n - 87.
